@@ -120,6 +120,11 @@ def corruptions(data, rng):
             yield 'empty-list', variant(lambda p: p.__setitem__(key, []))
             yield 'extra-item', variant(lambda p: p.__setitem__(key, list(node) + [copy.deepcopy(node[0])] if node else [1]))
             yield 'list-to-scalar', variant(lambda p: p.__setitem__(key, 7))
+            if len(node) >= 2:
+                # still a valid configuration, but a different one: the order written in the file is the
+                # order of the action indices, of the chained transitions, of the summed rewards, ...
+                yield 'reverse-list', variant(lambda p: p.__setitem__(key, list(reversed(node))))
+                yield 'rotate-list', variant(lambda p: p.__setitem__(key, list(node[1:]) + [node[0]]))
         if isinstance(node, int) and not isinstance(node, bool):
             for repl in (0, -1, 'x', 2.5, node + 1):
                 yield 'int-replaced', variant(lambda p, r=repl: p.__setitem__(key, r))
@@ -143,7 +148,8 @@ def fam_cfg(seed, shard, nshards, n):
         yield cfg_line(data), real_static(data), 'cfg-shipped'
         cs = list(corruptions(data, rng))
         if n and len(cs) > n:
-            cs = rng.sample(cs, n)
+            must = [x for x in cs if x[0] in ('reverse-list', 'rotate-list')]
+            cs = must + rng.sample([x for x in cs if x[0] not in ('reverse-list', 'rotate-list')], n)
         for kind, d in cs:
             if not tokenizable(d):
                 continue
